@@ -15,6 +15,7 @@ NOTE = ("Trusted: Coq 8.16.1 kernel; no axioms (Print Assumptions: closed under 
 TECH = ("machine-checked proof in Coq (faithful model refined to a specification; invariants by induction over histories), "
         "tied to the code by differential correspondence with the extracted model")
 
+ENGINE = {}
 claimed = {
     "C01": ("Theorems (closed under the global context): every transcript accepted by the lifecycle specification has "
             "pairwise distinct handles over all creation paths and at most one not-yet-dead entity per index (any history "
@@ -44,6 +45,18 @@ claimed = {
             "(repaired) model refines the specification; the code as found is refuted by a vm_compute witness. Tie as C01 "
             "plus long churn histories.", "5.C17"),
 }
+claimed["C18"] = (
+    "Theorems (Coq, closed under the global context) on a deep embedding of the shapes accepted by "
+    "#[derive(ConvertSaveload)] and of the code it emits: convert_from after convert_into is the identity for every "
+    "definition, value and pair of id mappings inverse on the value's entities; the data is the value with entity leaves "
+    "mapped to markers, everything else and the order unchanged, and is a value of the generated Data definition; fields "
+    "are converted one by one in declaration order by their own conversions, skipped fields verbatim, variants by name; "
+    "supported shapes never panic when all entities are marked; storage_type gives the three #[derive(Component)] cases. "
+    "Tie: generated crates (48-60 types each) carrying the real derives are built against the repository and compared "
+    "case by case (JSON text, round-trip equality, panic, type_name of the storage) with the extracted model. Partial: "
+    "rustc's expansion/type checking of the emitted tokens, serde's derive and serde_json are trusted (modelled by ser_* "
+    "in SaveLoad/DeriveCodec.v), tied only by running the generated crates.", "5.C18")
+ENGINE["C18"] = "coq-derive"
 REASONS = {}
 
 checks = []
@@ -51,7 +64,7 @@ for pid, (text, ref) in claimed.items():
     checks.append({
         "property_id": pid, "quick_cmd": "./sv check %s --tier quick" % pid,
         "thorough_cmd": "./sv check %s --tier thorough" % pid, "evidence_file": "evidence/%s.json" % pid,
-        "replay_cmd_template": "./sv replay {path}", "engine": "coq-world",
+        "replay_cmd_template": "./sv replay {path}", "engine": ENGINE.get(pid, "coq-world"),
         "level_claimed": {"category": "proof", "text": text, "design_ref": ref},
         "level_note": NOTE, "technique": TECH})
 
@@ -62,7 +75,9 @@ m = {
               "baseline_off_cmd": "cd /repo && cargo nextest run --workspace --no-fail-fast --tool-config-file "
                                   "pb:/w/lib/nextest.toml --profile pb --test-threads 8 --offline",
               "source_commits": [], "add_only": True},
-    "engines": [{"name": "coq-world", "path": "coq/theories", "serves_properties": sorted(claimed),
+    "engines": [{"name": "coq-derive", "path": "coq/theories/SaveLoad", "serves_properties": ["C18"],
+                 "kind_free_text": "Coq model of the derive macros' output + generated Rust crates carrying the real derives"},
+                {"name": "coq-world", "path": "coq/theories", "serves_properties": sorted(p for p in claimed if p not in ENGINE),
                  "kind_free_text": "Coq development (lifecycle spec, faithful allocator/storage/world models, refinement, "
                                    "property theorems) + extracted OCaml model + Rust correspondence harness"}],
     "checks": checks,
